@@ -143,9 +143,9 @@ def rand_tree(rng, depth, budget):
         if r < 0.35 and depth > 0:
             t[k] = rand_tree(rng, depth - 1, budget)
         elif r < 0.85:
-            t[k] = f"sha256:{rng.randint(0, 5):02x}"
+            t[k] = f"sha256:{rng.choice(['0a', '0A', 'ab', 'AB', 'Ab', '00', '01', '02'])}"
         else:
-            t[k] = f"symlink:{rng.choice(['a', 'b/c', 'x'])}"
+            t[k] = f"symlink:{rng.choice(['a', 'A', 'b/c', 'B/c', 'b/C', 'x'])}"
     return t
 
 
@@ -167,7 +167,10 @@ def edit_tree(rng, t):
             del cur[rng.choice(keys)]
         else:
             k = rng.choice(keys)
-            cur[k] = rng.choice(["sha256:ee", {}, {"z": {"y": "sha256:02"}}, "symlink:b"]) if rng.random() < 0.7 else cur[k]
+            if isinstance(cur[k], str) and rng.random() < 0.35:
+                cur[k] = cur[k].swapcase()  # entry changed ONLY in letter case (hash text / link target are case-sensitive)
+            else:
+                cur[k] = rng.choice(["sha256:ee", {}, {"z": {"y": "sha256:02"}}, "symlink:b"]) if rng.random() < 0.7 else cur[k]
     return t
 
 
